@@ -628,6 +628,29 @@ def rule_mode_independence(rep: Report, repo: Repo, rule: str) -> None:
     rep.floor(rule, 6, "processing decisions in the walk")
 
 
+def rule_pages_not_skipped(rep: Report, repo: Repo, rule: str) -> None:
+    rep.rule(rule, "inside the walk, the call that produces a page is not wrapped in an exception handler that continues: a file "
+                   "that is listed in the index is documented, or the run fails")
+    dm = DocumentModel(repo)
+    n = 0
+    for c in calls_in(dm.walk):
+        if call_name(c).endswith("document_single_file"):
+            n += 1
+            q, child = c, c
+            swallowed = None
+            while q in dm.parents and q is not dm.walk:
+                child, q = q, dm.parents[q]
+                if isinstance(q, ast.Try) and any(child is st_ for st_ in q.body):
+                    for h in q.handlers:
+                        if not any(isinstance(x, ast.Raise) for x in ast.walk(h)) and not any(
+                                isinstance(x, ast.Call) and call_name(x) in ("exit", "sys.exit") for x in ast.walk(h)):
+                            swallowed = norm(h.type) if h.type is not None else "everything"
+            rep.check(swallowed is None, rule, f"{MOD}:document", norm(c)[:60],
+                      f"a failure of the page production is caught ({swallowed}) and the walk goes on: the index, written before, lists "
+                      f"an entry for which no page exists", witness="a directory with one malformed .cmake file")
+    rep.floor(rule, 1, "page production calls")
+
+
 def rule_index_before_pages(rep: Report, repo: Repo, rule: str) -> None:
     rep.rule(rule, "in the walk body the directory index is written before the pages of that directory are produced: the page of a "
                    "module called index.cmake is the last writer of <dir>/index.rst, as it is the page stdout mode prints")
@@ -960,6 +983,9 @@ def rule_match_sites(rep: Report, repo: Repo, rule: str) -> None:
             ok = "abs" in facts and "dirslash" in facts
             if "input" not in facts:
                 form_msg = "the string matched is not derived from the input path"
+            elif "resolved" in facts:
+                form_msg = ("the input path is matched after resolving symbolic links: a pattern that names the path as the caller "
+                            "gave it (a link, or a component of the unresolved path) no longer matches")
             elif "abs" not in facts:
                 form_msg = ("the input path is matched as typed, not as absolute path: whether it is excluded depends on how "
                             "the caller spelled it (patterns naming a parent directory, or an absolute path, never match)")
@@ -1001,6 +1027,29 @@ def rule_match_sites(rep: Report, repo: Repo, rule: str) -> None:
             msg = "a matching file is not removed from the list that is documented"
     rep.check(ok, rule, where, "spec.match_file(join(root, file)) -> filenames.remove(file)", msg,
               witness="-e skip.cmake")
+    # each entry of the listing is tested: the match is not conjoined with another condition and not nested under a switch
+    for role, pair in (("dir", roles["dir"]), ("file", roles["file"])):
+        if pair is None:
+            continue
+        c, loop = pair
+        iff = dm.parents.get(c)
+        while iff is not None and not isinstance(iff, ast.If):
+            iff = dm.parents.get(iff)
+        extra = []
+        if isinstance(iff, ast.If):
+            t = iff.test
+            parts = t.values if isinstance(t, ast.BoolOp) and isinstance(t.op, ast.And) else [t]
+            for x in parts:
+                if any(y is c for y in ast.walk(x)):
+                    continue
+                extra.append(norm(x))
+        rep.check(not extra, rule, where, f"{role} match is the only condition of the removal",
+                  f"entries are only tested against the exclude patterns when `{extra[0][:60] if extra else ''}` holds: the others bypass "
+                  f"every pattern although they are processed", witness="Legacy.CMAKE with -e 'Legacy*'")
+        outer = [g for g in guards_of(dm.fn, loop, dm.parents) if any(g.test is x for x in ast.walk(dm.walk))]
+        rep.check(not outer, rule, where, f"{role} exclusion loop runs for every directory",
+                  f"the exclusion of matching {'subdirectories' if role == 'dir' else 'files'} only happens under "
+                  f"`{norm(outer[0].test)[:60] if outer else ''}`", witness="auto_exclude_directories_without_cmake: false with -e build/")
     # the removals precede every consumer of the lists in the loop body
     for role, pair in (("dir", roles["dir"]), ("file", roles["file"])):
         if pair is None:
@@ -1076,8 +1125,11 @@ def _path_facts(e: ast.expr, env: Dict[str, FrozenSet[str]]) -> FrozenSet[str]:
         return env.get(e.id, frozenset())
     if isinstance(e, ast.Call):
         nm = call_name(e)
-        if nm in ("os.path.abspath", "os.path.realpath") and e.args:
+        if nm == "os.path.abspath" and e.args:
             return (_path_facts(e.args[0], env) - {"dirslash"}) | ({"abs"} if "input" in _path_facts(e.args[0], env) else frozenset())
+        if nm == "os.path.realpath" and e.args:
+            # resolving symlinks changes the components patterns are matched against: not "the input path made absolute"
+            return (_path_facts(e.args[0], env) - {"dirslash"}) | ({"resolved"} if "input" in _path_facts(e.args[0], env) else frozenset())
         if nm == "os.path.join" and len(e.args) >= 2:
             first = _path_facts(e.args[0], env)
             if all(isinstance(a, ast.Constant) and a.value == "" for a in e.args[1:]):
